@@ -62,9 +62,23 @@ ClsOf(e) ==
                                 a0 == MontOf("Fq", x[1])  a1 == MontOf("Fq", x[2])  b0 == MontOf("Fq", y[1])  b1 == MontOf("Fq", y[2])
                                 n2a1 == MontOf("Fq", FQ!FNeg(FQ!FAdd(x[2], x[2])))
                             IN { SopClass(Redc("Fq", BAdd(BMul(a0, b0), BMul(n2a1, b1)))), SopClass(Redc("Fq", BAdd(BMul(a0, b1), BMul(a1, b0)))) }
+      [] e.op = "x.fq4.mul" ->       \* sum_of_products<4>: four coefficients, each a sum of four products (128 bytes = a11 | a10 | a01 | a00)
+            LET L(bb, j) == MontOf("Fq", FromBE(SubSeq(bb, 32 * (j - 1) + 1, 32 * j)))
+                NL(bb, j) == LET v == FromBE(SubSeq(bb, 32 * (j - 1) + 1, 32 * j)) IN MontOf("Fq", FQ!FNeg(FQ!FAdd(v, v)))
+                a00 == L(e.a, 4)  a01 == L(e.a, 3)  a10 == L(e.a, 2)  a11 == L(e.a, 1)
+                n01 == NL(e.a, 3)  n10 == NL(e.a, 2)  n11 == NL(e.a, 1)
+                b00 == L(e.b, 4)  b01 == L(e.b, 3)  b10 == L(e.b, 2)  b11 == L(e.b, 1)
+                S4(w, x, y, z) == BAdd(BAdd(w, x), BAdd(y, z))
+                cls(S) == LET u4 == BDiv(Redc("Fq", S), R256)
+                          IN IF u4 = <<>> THEN "sop4.u4=0" ELSE IF u4 = <<1>> THEN "sop4.u4=1" ELSE IF u4 = <<2>> THEN "sop4.u4=2" ELSE "sop4.u4>=3"
+            IN { cls(S4(BMul(a00, b00), BMul(n01, b01), BMul(n10, b11), BMul(n11, b10))),
+                 cls(S4(BMul(a00, b01), BMul(a01, b00), BMul(a10, b10), BMul(n11, b11))),
+                 cls(S4(BMul(a00, b10), BMul(n01, b11), BMul(a10, b00), BMul(n11, b01))),
+                 cls(S4(BMul(a00, b11), BMul(a01, b10), BMul(a10, b01), BMul(a11, b00))) }
       [] OTHER -> {}
 CovNames == {"mul.carry2", "mul.ge_p", "mul.lt_p", "add.carry", "add.eq_p", "add.ge_p", "add.lt_p", "sub.equal", "sub.borrow", "sub.plain",
-             "sop.u4=0", "sop.u4=1.r<q", "sop.u4=1.r>=q", "sop.u4>=2"}
+             "sop.u4=0", "sop.u4=1.r<q", "sop.u4=1.r>=q", "sop.u4>=2",
+             "sop4.u4=0", "sop4.u4=1", "sop4.u4=2", "sop4.u4>=3"}
 \* ---------------------------------------------------------------- conversions
 ChkFromSlice(e) == OptIs(e.out, FromSliceSpec(FMod(e.F), e.in), 32)
 ChkInterpret(e) == Len(e.in) = 64 /\ OptIs(e.out, BMod(FromBE(e.in), FMod(e.F)), 32)
